@@ -26,6 +26,29 @@ claim("C04",
       "decided: numerical size of any label dependence (the rule is qualitative).",
       "ast site census + reaching-definitions dataflow (receiver normalisation must-analysis)", "§3 C04")
 
+claim("C01",
+      "Clause-level: (i) the form graph, conversion table, dispatch and name caches agree (tree, both directions per edge, "
+      "no orphan, element order of all 18 conversions = param_names); (ii) symbolic identities decided by a canonical "
+      "term algebra over the real ASTs: spherical/cylindrical definitions, rates = total time-derivatives and reverse "
+      "formulas, true<->eccentric anomaly pairs mutually inverse (elliptic and hyperbolic), Newton step of M2E against "
+      "the sibling's Kepler equation with loop polarity, mean-motion pair, circular/mean-circular siblings, and the "
+      "defining relations of 19 Infos quantities; (iii) alias closure of Form.alt.",
+      "Not decided: numerical round-trip error, convergence of M2E (start values), _cartesian_to_keplerian, polar-pair "
+      "decoders and keplerian->cartesian (thorough tier rules pending). Positive-atom assumption for sqrt(x²)=x; angles "
+      "modulo 2π; textbook definitions listed in the evidence assumptions.",
+      "table agreement over ast + canonical term algebra (normal forms, symbolic derivation) on straight-line arms",
+      "§3 C01")
+
+claim("C16",
+      "Clause-level: the closed-form state-transition and thrust matrices read from ClohessyWiltshire._propagate "
+      "satisfy Hill's equations and initial values entry by entry for all n, t (108 symbolic obligations discharged by "
+      "term-algebra normal forms + derivation); QSW2TNW is the signed permutation (q,s,w)->(s,-q,w) with det +1 and the "
+      "TNW arm a similarity transform with it; maneuver sequencing in propagate() (impulse: free flight then dv on the "
+      "velocity once; continuous: thrust to min(date, stop); two-sided applicability window; half-open thrust window).",
+      "Not decided: second-order agreement with Keplerian differences; CWHelper formulas (thorough rule pending). "
+      "Trusted: Hill's equations as written in the checker; the term algebra.",
+      "canonical term algebra (ODE + initial value obligations) + ast pattern rules on the sequencing", "§3 C16")
+
 NOT_YET = "check not built yet in this revision; rules designed in DESIGN.md §3 — claimed once its checker is committed"
 
 ALL = [f"C{i:02d}" for i in range(1, 21)]
